@@ -387,11 +387,39 @@ class C17(Check):
                     out['nontrivial'] = info['terminal_ops'] >= 2
                 stats.add({'kind': 'seq', 'ops': list(ops)}, out,
                           max_samples=1)
+        # systematic single line-level preemption: two threads running one
+        # operation each, from two start states, preempted at EVERY executed
+        # source line of futures.py in turn
+        idx = 0
+        for prefix in ([], ['q', 'r']):
+            for a in coord.OPS:
+                for b in coord.OPS:
+                    idx += 1
+                    if idx % nshards != shard:
+                        continue
+                    base = {'kind': 'conc', 'threads': [[a], [b]],
+                            'prefix': prefix,
+                            'sched': {'mode': 'walk', 'choices': []}}
+                    v0, info0 = coord.run_concurrent(dict(base, count=True))
+                    n = info0.get('nlines', 0)
+                    for ln in [None] + list(range(1, n + 1)):
+                        case = dict(base, lines=[] if ln is None else [ln])
+                        viol, info = coord.run_concurrent(case)
+                        out = {'violations': [], 'cls': ['line-preempt'],
+                               'nontrivial': info.get('terminal', 0) >= 2,
+                               'fp': f'lp{prefix}{a}{b}{ln}'}
+                        if viol:
+                            out['violations'].append(('c17:' + viol[0],
+                                                      viol[1]))
+                        stats.add(case, out, max_samples=1)
 
     def coverage_extra(self, tier, results):
         return {'exhaustive': True,
                 'exhaustive_bound': f'all operation sequences of length <= '
-                                    f'{self.depth(tier)} over 11 operations',
+                                    f'{self.depth(tier)} over 11 operations; '
+                                    f'all 2-thread x 1-operation scenarios '
+                                    f'from 2 start states with one '
+                                    f'preemption at every executed line',
                 'explanation': 'exhaustive: true refers to sub-domain (a)'}
 
 
